@@ -162,15 +162,19 @@ static void String_Assign(var self, var obj) {
   }
 #endif
   
-  s->val = realloc(s->val, strlen(val) + 1);
+  /* val may point into the buffer of self: copy before releasing it */
+  size_t size = strlen(val) + 1;
+  char* nval = malloc(size);
   
 #if CELLO_MEMORY_CHECK == 1
-  if (s->val is NULL) {
+  if (nval is NULL) {
     throw(OutOfMemoryError, "Cannot allocate String, out of memory!");
   }
 #endif
 
-  strcpy(s->val, val);
+  memcpy(nval, val, size);
+  free(s->val);
+  s->val = nval;
 }
 
 static char* String_C_Str(var self) {
@@ -248,15 +252,23 @@ static void String_Concat(var self, var obj) {
   }
 #endif
   
-  s->val = realloc(s->val, strlen(s->val) + strlen(c_str(obj)) + 1);
+  /* obj may be self or a view of its buffer: build the result before releasing it */
+  char* val = c_str(obj);
+  size_t len0 = strlen(s->val);
+  size_t len1 = strlen(val);
+  char* nval = malloc(len0 + len1 + 1);
   
 #if CELLO_MEMORY_CHECK == 1
-  if (s->val is NULL) {
+  if (nval is NULL) {
     throw(OutOfMemoryError, "Cannot allocate String, out of memory!");
   }
 #endif
   
-  strcat(s->val, c_str(obj));
+  memcpy(nval, s->val, len0);
+  memcpy(nval + len0, val, len1);
+  nval[len0 + len1] = '\0';
+  free(s->val);
+  s->val = nval;
 }
 
 static void String_Resize(var self, size_t n) {
